@@ -505,11 +505,15 @@ def _wrap_class(cls):
     if getattr(orig, "_gsim_wrapped", False):
         return
 
-    def tighten_bounds(self, *args, _orig=orig, **kwargs):
+    plain = isinstance(orig, type(lambda: 0))
+
+    def tighten_bounds(self, *args, **kwargs):
+        # the original may be any descriptor (a plain function on the pinned tree): bind it the way Python would
+        call = (lambda *a, **k: orig(self, *a, **k)) if plain else orig.__get__(self, type(self))
         m = MON
         if m is None or args or kwargs:
-            return _orig(self, *args, **kwargs)
-        return m.around(self, _orig)
+            return call(*args, **kwargs)
+        return m.around(self, lambda _obj: call())
     tighten_bounds._gsim_wrapped = True
     tighten_bounds.__wrapped__ = orig
     tighten_bounds.__doc__ = getattr(orig, "__doc__", None)
@@ -528,12 +532,17 @@ def install_monitor_wrappers():
         except Exception:
             continue
         for name, obj in vars(mod).items():
-            if isinstance(obj, type) and obj.__module__ == mod.__name__ and "tighten_bounds" in obj.__dict__:
+            # (graphtage/__init__.py rewrites __module__ of many classes to 'graphtage': do not compare it with the
+            #  defining module - any class of the package that defines tighten_bounds itself is taken, once)
+            if isinstance(obj, type) and str(getattr(obj, "__module__", "")).split(".")[0] == "graphtage" \
+                    and "tighten_bounds" in obj.__dict__:
                 fn = obj.__dict__["tighten_bounds"]
                 if getattr(fn, "__isabstractmethod__", False) or getattr(obj, "_is_protocol", False):
                     continue
                 if obj.__name__.endswith("PARTIAL_IMPLEMENTATION"):
                     continue
+                if obj.__name__.startswith("_"):
+                    continue     # a private helper class is not one of the bounded objects the engine *exposes*
                 _wrap_class(obj)
                 seen.append(obj.__name__)
     return sorted(set(seen))
